@@ -109,7 +109,9 @@ def _classify_ext_diff(case, obs, diffs):
             if op["op"] == "add_data" and op.get("type_uid") and st["info"].get("target") in uids:
                 j = i - 1
                 listed = False
-                while j >= 0 and case["ops"][j]["op"] != "rm_ws":
+                # "the removal of the previous user": remove_entity or parent.remove_children (thorough run 2, ext case 2205:
+                # the float data holding the identifier was removed through its parent at op 16, the listing was older)
+                while j >= 0 and case["ops"][j]["op"] not in ("rm_ws", "rm_children"):
                     if case["ops"][j]["op"] == "listing" and case["ops"][j]["kind"] == "types" and obs["steps"][j]["outcome"] == "done":
                         listed = True
                     j -= 1
